@@ -930,3 +930,319 @@ example : readAllCap (Fmt.kLine 1) true .seek [65, 66, 67, 10, 68, 10] 2 3 = non
     readAllCap (Fmt.kLine 1) true .seek [65, 66, 67, 10, 68, 10] 2 6 = some [[65, 66, 67, 10], [68, 10]] := by decide
 
 end C01
+
+/-! ## responses to the independent review (audit/review-C01-C10.md): a generous cap never refuses; wrapped FASTA at record level; CRLF per-chunk stripping composes -/
+namespace C01
+
+/-! ### a generous cap never refuses -/
+
+theorem fixEnd_length (F : Fmt) (b : Bytes) : (fixEnd F b).length ≤ b.length + 1 + F.marker.length := by
+  unfold fixEnd addNL
+  split <;> simp <;> omega
+
+theorem accumulate_eof_fin (F : Fmt) (nr : Bool) (file : Bytes) (k cap : Nat) (acc : Bytes) : ∀ fuel,
+    accumulateCap F nr file k cap fuel file.length acc true = .stop ∧
+    accumulate F nr file k fuel file.length acc true = none := by
+  intro fuel
+  cases fuel with
+  | zero => simp [accumulateCap, accumulate]
+  | succ fuel => simp [accumulateCap, accumulate]
+
+theorem accumulateCap_of_bound (F : Fmt) (nr : Bool) (file : Bytes) (k cap : Nat)
+    (hcap : file.length + 1 + F.marker.length ≤ cap) :
+    ∀ (fuel pos : Nat) (acc : Bytes) (fp : Bool), acc.length ≤ pos → pos ≤ file.length →
+      accumulateCap F nr file k cap fuel pos acc fp = toRes (accumulate F nr file k fuel pos acc fp) ∧
+      (∀ chunk pos' fin, accumulate F nr file k fuel pos acc fp = some (chunk, pos', fin) →
+        pos' ≤ file.length ∧ (fin = false → chunk.length ≤ pos')) := by
+  intro fuel
+  induction fuel with
+  | zero => intro pos acc fp _ _; simp [accumulateCap, accumulate, toRes]
+  | succ fuel ih =>
+    intro pos acc fp hacc hpos
+    simp only [accumulateCap, accumulate]
+    have hrawlen : ((file.drop pos).take k).length ≤ file.length - pos := by
+      simp only [List.length_take, List.length_drop]; omega
+    have hfinlen : decide (((file.drop pos).take k).length < k) = true → pos + ((file.drop pos).take k).length = file.length := by
+      simp only [List.length_take, List.length_drop, decide_eq_true_eq]; omega
+    generalize (file.drop pos).take k = raw at hrawlen hfinlen
+    generalize decide (raw.length < k) = fin at hfinlen
+    by_cases h0 : raw.length = 0
+    · simp only [h0, ↓reduceIte]
+      by_cases hc : (nr && !acc.isEmpty && !fp) = true
+      · simp only [hc, ↓reduceIte]
+        have hl := fixEnd_length F acc
+        have hcap' : ¬ (fixEnd F acc).length > cap := by omega
+        simp only [hcap', ↓reduceIte]
+        by_cases hcomp : F.complete (fixEnd F acc) = true
+        · simp only [hcomp, ↓reduceIte, toRes, true_and]
+          intro chunk pos' fin' h
+          simp only [Option.some.injEq, Prod.mk.injEq] at h
+          obtain ⟨_, rfl, rfl⟩ := h
+          exact ⟨hpos, by simp⟩
+        · simp [hcomp, toRes]
+      · simp [hc, toRes]
+    · simp only [h0, ↓reduceIte]
+      have hacc' : (acc ++ (if fin = true then fixEnd F raw else raw)).length ≤ pos + raw.length + 1 + F.marker.length := by
+        have := fixEnd_length F raw
+        split <;> simp <;> omega
+      have hnofix : fin = false → (acc ++ (if fin = true then fixEnd F raw else raw)).length ≤ pos + raw.length := by
+        intro hf; simp [hf]; omega
+      generalize acc ++ (if fin = true then fixEnd F raw else raw) = acc' at hacc' hnofix
+      have hcap' : ¬ acc'.length > cap := by omega
+      simp only [hcap', ↓reduceIte]
+      by_cases hcomp : F.complete acc' = true
+      · simp only [hcomp, ↓reduceIte, toRes, true_and]
+        intro chunk pos' fin' h
+        simp only [Option.some.injEq, Prod.mk.injEq] at h
+        obtain ⟨rfl, rfl, rfl⟩ := h
+        exact ⟨by omega, hnofix⟩
+      · simp only [hcomp]
+        by_cases hf : fin = false
+        · exact ih (pos + raw.length) acc' fin (hnofix hf) (by omega)
+        · have hfin : fin = true := by simpa using hf
+          subst hfin
+          rw [hfinlen rfl]
+          have := accumulate_eof_fin F nr file k cap acc' fuel
+          rw [this.1, this.2]
+          simp [toRes]
+
+theorem readChunkCap_of_bound (F : Fmt) (nr : Bool) (mode : Mode) (file : Bytes) (k cap : Nat)
+    (hcap : file.length + 1 + F.marker.length ≤ cap) (s : St) (hs : StOK file s) :
+    readChunkCap F nr mode file k cap s = toRes (readChunk F nr mode file k s) ∧
+    (∀ out s', readChunk F nr mode file k s = some (out, s') → StOK file s') := by
+  have h := accumulateCap_of_bound F nr file k cap hcap (file.length + 2) s.pos s.carry s.finished hs.1 hs.2
+  unfold readChunkCap readChunk
+  rw [h.1]
+  cases hacc : accumulate F nr file k (file.length + 2) s.pos s.carry s.finished with
+  | none => simp [toRes]
+  | some r =>
+    obtain ⟨chunk, pos', fin⟩ := r
+    have hb := h.2 chunk pos' fin hacc
+    simp only [toRes, true_and]
+    intro out s' hs'
+    simp only [Option.some.injEq, Prod.mk.injEq] at hs'
+    obtain ⟨_, rfl⟩ := hs'
+    by_cases hf : fin = true
+    · simp [hf, StOK, hb.1]
+    · have hf' : fin = false := by simpa using hf
+      have hlen := hb.2 hf'
+      cases mode with
+      | seek => simp only [hf', Bool.false_eq_true, ↓reduceIte, StOK, List.length_nil]; omega
+      | carry =>
+        simp only [hf', Bool.false_eq_true, ↓reduceIte, StOK, List.length_drop]
+        omega
+
+theorem readLoopCap_of_bound (F : Fmt) (nr : Bool) (mode : Mode) (file : Bytes) (k cap : Nat)
+    (hcap : file.length + 1 + F.marker.length ≤ cap) :
+    ∀ (fuel : Nat) (s : St), StOK file s →
+      readLoopCap F nr mode file k cap fuel s = some (readLoop F nr mode file k fuel s) := by
+  intro fuel
+  induction fuel with
+  | zero => intro s _; rfl
+  | succ fuel ih =>
+    intro s hs
+    have h := readChunkCap_of_bound F nr mode file k cap hcap s hs
+    unfold readLoopCap readLoop
+    rw [h.1]
+    cases hc : readChunk F nr mode file k s with
+    | none => simp [toRes]
+    | some r =>
+      obtain ⟨out, s'⟩ := r
+      simp only [toRes]
+      by_cases he : out.isEmpty = true
+      · simp [he]
+      · simp only [he, Bool.false_eq_true, ↓reduceIte]
+        rw [ih s' (h.2 out s' hc)]
+        rfl
+
+/-- **C01.capped_read_succeeds** — the converse of `capped_read`: a cap of at least the file size plus the bytes
+appended at end of file (one newline and the format's entry marker) never refuses: the capped read delivers
+exactly the chunks of the uncapped read — for every format, file, chunk size and mode. -/
+theorem capped_read_succeeds (F : Fmt) (nr : Bool) (mode : Mode) (file : Bytes) (k cap : Nat)
+    (hcap : file.length + 1 + F.marker.length ≤ cap) :
+    readAllCap F nr mode file k cap = some (readAll F nr mode file k) :=
+  readLoopCap_of_bound F nr mode file k cap hcap _ init (by simp [StOK, init])
+
+/-- the bound is tight for wrapped FASTA in carry mode (the reviewer's example): one byte less can refuse -/
+example : readAllCap Fmt.fasta true .carry [62, 97, 10, 65, 67, 10, 62, 98, 10, 71, 71] 100 12 = none ∧
+    readAllCap Fmt.fasta true .carry [62, 97, 10, 65, 67, 10, 62, 98, 10, 71, 71] 100 13 =
+      some (readAll Fmt.fasta true .carry [62, 97, 10, 65, 67, 10, 62, 98, 10, 71, 71] 100) := by decide
+
+end C01
+
+namespace C01
+
+/-! ### wrapped FASTA at the level of records (a header line and the sequence lines that follow it) -/
+
+theorem splitRec_append_hdr (h : Bytes) (t : List Bytes) (hh : isHdr h = true) :
+    ∀ (a cur : List Bytes), splitRec (a ++ h :: t) cur =
+      (if cur ++ a = [] then [] else splitRec a cur) ++ splitRec (h :: t) [] := by
+  intro a
+  induction a with
+  | nil =>
+    intro cur
+    simp only [List.nil_append, List.append_nil, splitRec, hh, ne_eq, not_true_eq_false, and_false, ↓reduceIte]
+    by_cases hc : cur = []
+    · simp [hc]
+    · simp [hc]
+  | cons l a ih =>
+    intro cur
+    simp only [List.cons_append, splitRec]
+    have hne : ¬ (cur ++ l :: a = []) := by simp
+    simp only [hne, ↓reduceIte]
+    split
+    · rw [ih [l]]; simp [splitRec]
+    · rw [ih (cur ++ [l])]; simp [splitRec]
+
+theorem linesOf_head_hdr (b : Bytes) (hb : b.head? = some GT) : ∃ h t, linesOf b = h :: t ∧ isHdr h = true := by
+  cases b with
+  | nil => simp at hb
+  | cons x xs =>
+    have hx : x = GT := by simpa using hb
+    rw [linesOf_cons]
+    have : ¬ x = NL := by rw [hx]; decide
+    simp only [this, ↓reduceIte]
+    cases linesOf xs with
+    | nil => exact ⟨[x], [], rfl, by simp [isHdr, hx]⟩
+    | cons l ls => exact ⟨x :: l, ls, rfl, by simp [isHdr, hx]⟩
+
+theorem recordsFasta_append (a b : Bytes) (ha : a ≠ []) (hal : a.getLast? = some NL) (hb : b = [] ∨ b.head? = some GT) :
+    recordsFasta (a ++ b) = recordsFasta a ++ recordsFasta b := by
+  unfold recordsFasta
+  rcases hb with rfl | hb
+  · simp [linesOf, splitRec]
+  · obtain ⟨h, t, hl, hh⟩ := linesOf_head_hdr b hb
+    rw [linesOf_append a b hal, hl, splitRec_append_hdr h t hh (linesOf a) []]
+    have hne : linesOf a ≠ [] := linesOf_ne_nil a ha
+    simp [hne]
+
+/-- **C01.records_chunks_fasta** — wrapped (multi-line) FASTA at the level of records: for every file that is empty
+or starts with a header line, every chunk size and both modes, the records of the delivered chunks, concatenated in
+order, are exactly the records of the newline-terminated file — no record is lost, duplicated, reordered or split
+between two chunks. -/
+theorem records_chunks_fasta (mode : Mode) (file : Bytes) (hwf : file = [] ∨ file.head? = some GT)
+    (k : Nat) (hk : 0 < k) :
+    ((readAll Fmt.fasta true mode file k).map recordsFasta).flatten = recordsFasta (norm file) := by
+  have h := readAll_bytes_fasta mode file hwf k hk
+  rw [← h.1]
+  have hall := h.2
+  generalize readAll Fmt.fasta true mode file k = cs at hall
+  induction cs with
+  | nil => simp [recordsFasta, linesOf, splitRec]
+  | cons c cs ih =>
+    have hc := hall c (by simp)
+    simp only [List.map_cons, List.flatten_cons]
+    have hrest : cs.flatten = [] ∨ cs.flatten.head? = some GT := by
+      cases cs with
+      | nil => exact Or.inl rfl
+      | cons d ds =>
+        have hd := hall d (by simp)
+        right
+        cases d with
+        | nil => exact absurd rfl hd.1
+        | cons x xs => simpa using hd.2.2
+    rw [recordsFasta_append c cs.flatten hc.1 hc.2.1 hrest, ih (fun d hd => hall d (by simp [hd]))]
+
+example : recordsFasta [62,97,10,65,67,10,71,10,62,98,10,71,71,10] = [[[62,97],[65,67],[71]], [[62,98],[71,71]]] := by decide
+
+end C01
+
+namespace C01
+
+/-! ### CRLF: the buffers strip a trailing carriage return from every line of a chunk when the chunk's FIRST line has
+one (`_modify_for_carriage_return`), so parsing happens per chunk — it must still compose -/
+
+theorem dropCR_of_not (l : Bytes) (h : endsCR l = false) : dropCR l = l := by simp [dropCR, h]
+
+theorem parseLines_LF (ls : List Bytes) (h : AllLF ls) : parseLines ls = ls.map dropCR := by
+  have hm : ls.map dropCR = ls := by
+    rw [List.map_congr_left (fun l hl => dropCR_of_not l (h l hl))]; simp
+  cases ls with
+  | nil => rfl
+  | cons l t => simp only [parseLines, h l (by simp), Bool.false_eq_true, ↓reduceIte]; exact hm.symm
+
+theorem parseLines_CRLF (ls : List Bytes) (h : AllCRLF ls) : parseLines ls = ls.map dropCR := by
+  obtain ⟨init, last, rfl, hi⟩ := h
+  cases init with
+  | nil =>
+    simp only [List.nil_append, parseLines]
+    split
+    · rfl
+    · rename_i hl; simp [dropCR_of_not last (by simpa using hl)]
+  | cons l t => simp [parseLines, hi l (by simp)]
+
+theorem crlf_chunks_CRLF : ∀ (cs : List (List Bytes)), (∀ c ∈ cs, c ≠ []) → AllCRLF cs.flatten →
+    (cs.map parseLines).flatten = cs.flatten.map dropCR := by
+  intro cs
+  induction cs with
+  | nil => intro _ _; rfl
+  | cons c cs ih =>
+    intro hne hB
+    cases cs with
+    | nil =>
+      simp only [List.flatten_cons, List.flatten_nil, List.append_nil, List.map_cons, List.map_nil] at hB ⊢
+      exact parseLines_CRLF c hB
+    | cons c2 rest =>
+      obtain ⟨init, last, hE, hi⟩ := hB
+      have hneTail : ∀ d ∈ c2 :: rest, d ≠ [] := fun d hd => hne d (List.mem_cons_of_mem _ hd)
+      have hcne := hne c (by simp)
+      have hc2 : (c2 :: rest).flatten ≠ [] := by
+        have := hne c2 (by simp)
+        cases c2 with
+        | nil => exact absurd rfl this
+        | cons x xs => simp
+      have hE' : c ++ (c2 :: rest).flatten = init ++ [last] := by simpa using hE
+      -- in both cases: every line of c ends with CR, and the rest is again a CRLF text
+      have key : (∀ l ∈ c, endsCR l = true) ∧ AllCRLF (c2 :: rest).flatten := by
+        rcases List.append_eq_append_iff.mp hE' with ⟨a', h1, h2⟩ | ⟨c', h1, h2⟩
+        · exact ⟨fun l hl => hi l (by rw [h1]; simp [hl]), a', last, h2, fun l hl => hi l (by rw [h1]; simp [hl])⟩
+        · cases c' with
+          | nil =>
+            simp only [List.append_nil] at h1
+            simp only [List.nil_append] at h2
+            exact ⟨fun l hl => hi l (by rw [← h1]; exact hl), [], last, by simpa using h2.symm, by simp⟩
+          | cons x xs =>
+            simp only [List.cons_append, List.cons.injEq] at h2
+            have : xs ++ (c2 :: rest).flatten = [] := h2.2.symm
+            exact absurd (List.append_eq_nil_iff.mp this).2 hc2
+      have hpc : parseLines c = c.map dropCR := by
+        cases c with
+        | nil => exact absurd rfl hcne
+        | cons l t => simp [parseLines, key.1 l (by simp)]
+      have hrec := ih hneTail key.2
+      rw [List.map_cons, List.flatten_cons, hpc, hrec]
+      simp
+
+theorem crlf_chunks_LF (cs : List (List Bytes)) (hA : AllLF cs.flatten) :
+    (cs.map parseLines).flatten = cs.flatten.map dropCR := by
+  induction cs with
+  | nil => rfl
+  | cons c cs ih =>
+    simp only [List.map_cons, List.flatten_cons, List.map_append]
+    rw [parseLines_LF c (fun l hl => hA l (by simp [hl])), ih (fun l hl => hA l (by simp [hl]))]
+
+/-- **C01.crlf_chunks** — per-chunk carriage-return stripping composes: for a file whose lines all end with LF, or all
+with CRLF (the last line possibly unterminated), every chunk size and both modes, stripping per delivered chunk and
+concatenating gives exactly what stripping the whole file gives (and both are "drop the CR of every line"). -/
+theorem crlf_chunks (n : Nat) (hn : 0 < n) (mode : Mode) (file : Bytes) (hwf : n ∣ countNL (norm file)) (k : Nat) (hk : 0 < k)
+    (hU : AllLF (linesOf (norm file)) ∨ AllCRLF (linesOf (norm file))) :
+    ((readAll (Fmt.kLine n) true mode file k).map (fun c => parseLines (linesOf c))).flatten = parseLines (linesOf (norm file)) := by
+  have h := readAll_bytes_kLine n hn mode file hwf k hk
+  have hl : ((readAll (Fmt.kLine n) true mode file k).map linesOf).flatten = linesOf (norm file) := by
+    rw [lines_chunks _ (fun c hc => ⟨(h.2 c hc).1, (h.2 c hc).2.1⟩), h.1]
+  have hne : ∀ c ∈ (readAll (Fmt.kLine n) true mode file k).map linesOf, c ≠ [] := by
+    intro c hc
+    obtain ⟨b, hb, rfl⟩ := List.mem_map.mp hc
+    exact linesOf_ne_nil b (h.2 b hb).1
+  have hmap : (readAll (Fmt.kLine n) true mode file k).map (fun c => parseLines (linesOf c)) =
+      ((readAll (Fmt.kLine n) true mode file k).map linesOf).map parseLines := by simp
+  rw [hmap]
+  rcases hU with hA | hB
+  · rw [crlf_chunks_LF _ (by rw [hl]; exact hA), hl, parseLines_LF _ hA]
+  · rw [crlf_chunks_CRLF _ hne (by rw [hl]; exact hB), hl, parseLines_CRLF _ hB]
+
+/-- mixed line ends are outside the property ({LF, CRLF}); there the per-chunk rule IS chunk dependent -/
+theorem crlf_mixed_chunk_dependent :
+    parseLines [[97], [98, 13]] = [[97], [98, 13]] ∧ ([[[97]], [[98, 13]]].map parseLines).flatten = [[97], [98]] := by decide
+
+end C01
